@@ -5,6 +5,7 @@ import DicomModel.Model.Pdu
 import DicomModel.Lemmas.TagText
 import DicomModel.Lemmas.Pdu
 import DicomModel.Lemmas.PduNoPanic
+import DicomModel.Lemmas.GuardText
 import DicomModel.Props.C23
 /-
 C05 — untrusted input never makes a reader panic, abort or hang.  (partial, see below)
@@ -13,7 +14,18 @@ Proof part: no-panic / termination theorems about the executable models of the d
 parsers, where those models carry an explicit `panic` outcome (so a theorem cannot hold because a
 definition was totalised).  Collected here:
 
-* text: `Tag::from_str` — every Rust string (`tag_from_str_no_panic`, from `Lemmas/TagText`);
+* text: `Tag::from_str` and `parse_selector` — every Rust string, every dictionary
+  (`tag_from_str_no_panic`, `selector_no_panic`, `selector_slices_no_panic`);
+* date / time / date-time / range parsers: the models of C12 are total `Option` functions, so their
+  Rust panic sites (slices, indexes, `split_at`, `unwrap`) are modelled explicitly in
+  `Model/GuardText.lean` and proved unreachable for every byte string (`parse_*_no_panic`), with
+  `read_number_no_wrap` for the arithmetic that would wrap in a release build;
+* header decoders: only constant ranges of fixed arrays (`header_decoders_slices_in_range`), and
+  progress of 8 or 12 bytes per header (`header_decode_progress`, on `Model/Header.lean`);
+* value readers of the stateful decoder: `remainder[..n]`, the padding-trim loop
+  (`value_reader_slices_no_panic`); their `unreachable!()` in `read_value_cs` rests on
+  `read_value_strs` returning `Strs` (a type invariant, not modelled); their allocation is the
+  known finding `abort-alloc-dataset-reader`;
 * DICOM JSON: the element / data set visitors over any parsed JSON document
   (`json_dataset_no_panic`, `json_element_no_panic`, from `Props/C23`);
 * PDU decoding: `read_pdu` and everything under it, for every byte string — no unguarded
@@ -31,8 +43,7 @@ definition was totalised).  Collected here:
 
 Not proved (fuzzing only, labelled as such in props/C05.json): third-party decoders (jpeg-decoder,
 flate2, serde_json's text layer, encoding_rs), the eager/lazy data set reader state machines as a
-whole, `dump`, date/time/range parsers (their models are `Option`-valued functions without a panic
-outcome: total by construction, nothing to state).
+whole, `dump`, pixel decoders other than RLE.
 -/
 namespace Dicom.C05
 
@@ -41,6 +52,197 @@ namespace Dicom.C05
 /-- `Tag::from_str` returns for every Rust string (any sequence of Unicode scalar values). -/
 theorem tag_from_str_no_panic (cs : List Char) : TagText.parseTag (utf8Encode cs) ≠ .panic :=
   TagText.parseTag_ne_panic (TagText.okAfterAscii_utf8 cs)
+
+open TagText in
+theorem okAfterAscii_take : ∀ (s : Bytes) (n : Nat), okAfterAscii s = true → okAfterAscii (s.take n) = true := by
+  intro s
+  induction s with
+  | nil => intro n _; simp [okAfterAscii]
+  | cons a r ih =>
+    intro n h
+    cases n with
+    | zero => simp [okAfterAscii]
+    | succ m =>
+      cases r with
+      | nil => simp [okAfterAscii]
+      | cons b r' =>
+        cases m with
+        | zero => simp [okAfterAscii]
+        | succ k =>
+          have ht := ih (k + 1) (okAfterAscii_tail h)
+          simp only [List.take_succ_cons] at ht ⊢
+          simp only [okAfterAscii, Bool.and_eq_true] at h ⊢
+          exact ⟨h.1, ht⟩
+
+open TagText in
+theorem okAfterAscii_splitOn (c : Nat) : ∀ (bs : Bytes), okAfterAscii bs = true →
+    (∀ q ∈ splitOn c bs, okAfterAscii q = true) ∧
+    (∀ a, okAfterAscii (a :: bs) = true → okAfterAscii (a :: (splitOn c bs).headD []) = true) := by
+  intro bs
+  induction bs with
+  | nil => intro _; simp [splitOn, okAfterAscii]
+  | cons b r ih =>
+    intro h
+    have ihr := ih (okAfterAscii_tail h)
+    simp only [splitOn]
+    split
+    · refine ⟨?_, ?_⟩
+      · intro q hq
+        rcases List.mem_cons.mp hq with rfl | hq
+        · rfl
+        · exact ihr.1 q hq
+      · intro a _; simp [okAfterAscii]
+    · cases hs : splitOn c r with
+      | nil => exact absurd hs (splitOn_ne_nil c r)
+      | cons p ps =>
+        have hbp : okAfterAscii (b :: p) = true := by
+          have := ihr.2 b h; rw [hs] at this; simpa using this
+        refine ⟨?_, ?_⟩
+        · intro q hq
+          rcases List.mem_cons.mp hq with rfl | hq
+          · exact hbp
+          · exact ihr.1 q (by rw [hs]; exact List.mem_cons_of_mem _ hq)
+        · intro a ha
+          simp only [List.headD_cons]
+          simp only [okAfterAscii, Bool.and_eq_true] at ha ⊢
+          exact ⟨ha.1, hbp⟩
+
+open TagText in
+theorem parsePart_no_panic (byName : Bytes → Option TagText.Tag) (part : Bytes) (h : okAfterAscii part = true) :
+    parsePart byName part ≠ .panic := by
+  have key : ∀ s, okAfterAscii s = true → dictParseTag byName s ≠ .panic := by
+    intro s hs
+    unfold dictParseTag
+    have := parseTag_ne_panic hs
+    split
+    · nofun
+    · split <;> nofun
+    · rename_i heq; exact absurd heq this
+  unfold parsePart
+  split
+  · split
+    · nofun
+    · rename_i i _
+      have hk := key (part.take i) (okAfterAscii_take part i h)
+      simp only
+      split
+      · rename_i heq; exact absurd heq hk
+      · nofun
+      · split <;> nofun
+  · have hk := key part h
+    split
+    · rename_i heq; exact absurd heq hk
+    · nofun
+    · nofun
+
+open TagText in
+/-- **`DataDictionary::parse_selector` returns for every Rust string**, whatever the dictionary:
+the `Tag::from_str` calls inside cannot panic, and (`selector_slices_no_panic`) neither can the two
+`str` slices of an intermediate `«key»[«item»]` part. -/
+theorem selector_no_panic (byName : Bytes → Option TagText.Tag) (cs : List Char) :
+    parseSelector byName (utf8Encode cs) ≠ .panic := by
+  have hparts := (okAfterAscii_splitOn 0x2E (utf8Encode cs) (okAfterAscii_utf8 cs)).1
+  have hp : ∀ (ps : List Bytes), (∀ q ∈ ps, okAfterAscii q = true) → parseParts byName ps ≠ .panic := by
+    intro ps
+    induction ps with
+    | nil => intro _; nofun
+    | cons p ps ih =>
+      intro hq
+      have h1 := parsePart_no_panic byName p (hq p (by simp))
+      have h2 := ih (fun q hm => hq q (by simp [hm]))
+      simp only [parseParts]
+      split
+      · split
+        · nofun
+        · nofun
+        · rename_i heq; exact absurd heq h2
+      · nofun
+      · rename_i heq; exact absurd heq h1
+  have := hp _ hparts
+  unfold parseSelector
+  split
+  · split <;> nofun
+  · nofun
+  · rename_i heq; exact absurd heq this
+
+open TagText Guard in
+theorem selector_slices_no_panic (cs : List Char) :
+    ∀ part ∈ splitOn 0x2E (utf8Encode cs), selectorSlicesG part ≠ .panic :=
+  fun part hm => selectorSlicesG_np part
+    ((okAfterAscii_splitOn 0x2E (utf8Encode cs) (okAfterAscii_utf8 cs)).1 part hm)
+
+/-! ### date, time, date-time and range parsers: every slice, index and unwrap is in range
+
+The functions are `Model/GuardText.lean`: `core/src/value/deserialize.rs` and `range.rs` rewritten with
+checked slicing (`&buf[a..b]`, `buf[i]`, `split_at`, `dashes[i]`, `u8::try_from(n).unwrap()`), the
+panic-free parts shared with `Model/Partial.lean`. For EVERY byte string: -/
+
+open Guard in
+theorem parse_date_no_panic (buf : Bytes) : parseDateG buf ≠ .panic := parseDateG_np buf
+open Guard in
+theorem parse_date_partial_no_panic (buf : Bytes) : parseDatePartialG buf ≠ .panic := parseDatePartialG_np buf
+open Guard in
+theorem parse_time_no_panic (buf : Bytes) : parseTimeG buf ≠ .panic := parseTimeG_np buf
+open Guard in
+theorem parse_time_partial_no_panic (buf : Bytes) : parseTimePartialG buf ≠ .panic := parseTimePartialG_np buf
+open Guard in
+theorem parse_datetime_partial_no_panic (buf : Bytes) : parseDateTimePartialG buf ≠ .panic :=
+  parseDateTimePartialG_np buf
+open Guard in
+theorem parse_date_range_no_panic (buf : Bytes) : parseDateRangeG buf ≠ .panic := parseDateRangeG_np buf
+open Guard in
+theorem parse_time_range_no_panic (buf : Bytes) : parseTimeRangeG buf ≠ .panic := parseTimeRangeG_np buf
+open Guard in
+/-- for every ambiguity handler `mk` (`ToLocalTimeZone`, `ToKnownTimeZone`, `FailOnAmbiguousRange`,
+`IgnoreTimeZone`: none of them indexes or slices) -/
+theorem parse_datetime_range_no_panic (mk : Partial.Precise → Partial.Precise → Option Partial.DateTimeRange)
+    (buf : Bytes) : parseDateTimeRangeG mk buf ≠ .panic := parseDateTimeRangeG_np mk buf
+
+open Guard in
+/-- **no wrap-around in `read_number`** (release builds wrap silently): an accepted text of `n ≤ 9`
+digits yields a value below `10^n`; the call sites read 2 digits into `u8` (< 256), 4 into `u16`
+(< 65536) and at most 9 into `u32`/`i32` (< 2^31). -/
+theorem read_number_no_wrap (text : Bytes) (v : Nat) (h : readNumberG text = .ok v) :
+    v < 10 ^ text.length ∧ (text.length ≤ 2 → v < 256) ∧ (text.length ≤ 4 → v < 65536) ∧
+    v < 2147483648 := by
+  have hv := readNumberG_lt text v h
+  have h9 : text.length ≤ 9 := by
+    unfold readNumberG at h
+    split at h
+    · cases h
+    · rename_i hc; simp at hc; omega
+  refine ⟨hv, ?_, ?_, ?_⟩
+  · intro hl
+    have : 10 ^ text.length ≤ 10 ^ 2 := Nat.pow_le_pow_right (by omega) hl
+    omega
+  · intro hl
+    have : 10 ^ text.length ≤ 10 ^ 4 := Nat.pow_le_pow_right (by omega) hl
+    omega
+  · have : 10 ^ text.length ≤ 10 ^ 9 := Nat.pow_le_pow_right (by omega) h9
+    omega
+
+/-! ## header decoders and value readers -/
+
+open Guard in
+/-- the header decoders index only constant ranges of fixed-size arrays, all in range -/
+theorem header_decoders_slices_in_range :
+    headerSliceSites.all (fun (n, a, b) => decide (a ≤ b ∧ b ≤ n)) = true := headerSliceSites_in_range
+
+/-- every successful element header decode (Implicit VR LE, Explicit VR LE, Explicit VR BE) consumes
+8 or 12 bytes of its input, a short input is an error: readers that loop over headers terminate -/
+theorem header_decode_progress (ts : Syntax) (dict : Tag → Option VR) (bs : Bytes)
+    (h : ElemHeader) (n : Nat) (r : Bytes) (hd : decodeHeader ts dict bs = some (h, n, r)) :
+    (n = 8 ∨ n = 12) ∧ r.length + n = bs.length := Guard.decodeHeader_progress ts dict bs h n r hd
+
+open Guard in
+/-- value readers of the stateful decoder: `&mut remainder[..n]` of the 8-byte scratch array is in
+range for the three ways it is called (`len & 1`, `len & 3`, `len & 7`), and the trailing-padding
+loop `x = &x[..x.len() - 1]` never slices an empty text and stops within `len` rounds -/
+theorem value_reader_slices_no_panic (len : Nat) (x : Bytes) :
+    remainderSlice (len % 2) ≠ .panic ∧ remainderSlice (len % 4) ≠ .panic ∧
+    remainderSlice (len % 8) ≠ .panic ∧ trimTrailG x.length x ≠ .panic :=
+  ⟨(remainderSlice_np len).1, (remainderSlice_np len).2.1, (remainderSlice_np len).2.2,
+   trimTrailG_np x.length x (Nat.le_refl _)⟩
 
 /-! ## DICOM JSON -/
 
